@@ -146,7 +146,7 @@ def plan(tier: str) -> dict:
             for pos in ("before", "between", "after"):
                 cases.append({"worker": worker, "case": {"kind": "h2-rare", "items": [item], "pos": pos}})
     return {
-        "runs": 25000 if tier == "quick" else 600000,
+        "runs": 25000 if tier == "quick" else 1000000,
         "budget": 150 if tier == "quick" else 900,
         "cases": cases,
         "chunk": 40,
